@@ -124,3 +124,39 @@ Definition n_DCT := B "DCTDecode".
 
 Definition show_stream_res (r : res (dict * bytes)) : bytes :=
   show_res (fun x => show_obj (ODict (fst x)) ++ B " " ++ show_content (snd x)) r.
+
+(* the `match f.as_str()` of decode_stream *)
+Definition transform (dbg : bool) (inflate : bytes -> option (bytes * bytes)) (name : bytes)
+  : option (option dict -> bytes -> res bytes) :=
+  if bytes_eqb name n_Flate then Some (flate_decode inflate)
+  else if bytes_eqb name n_A85 then Some (fun _ data => a85_decode dbg data)
+  else if bytes_eqb name n_AHex then Some (fun _ data => ahex_decode data)
+  else if bytes_eqb name n_DCT then Some (fun _ _ => Fuel)      (* DCTDecode is not modelled *)
+  else None.
+
+(* running a case: the inflate oracle is the table in the case line; a Flate stage whose input has no entry
+   is reported as "fuel" (a generator defect, never silently an error) *)
+Definition transform_run (dbg : bool) (toks : list bytes) (name : bytes)
+  : option (option dict -> bytes -> res bytes) :=
+  if bytes_eqb name n_Flate then
+    Some (fun o data => if oracle_has "z" toks data then flate_decode (inflate_of toks) o data else Fuel)
+  else transform dbg (inflate_of toks) name.
+
+(* case: t <FilterName> <parms|n> <hex data> [oracle…] [@profile] | s <S(D(…),hex)> [oracle…] [@profile] *)
+Definition entry (args : list bytes) : bytes :=
+  let dbg := existsb (bytes_eqb (B "@debug")) args in
+  let kind := nth_arg args 0 in
+  if bytes_eqb kind (B "t") then
+    let toks := skipn 4 args in
+    let o := match read_obj_tok (nth_arg args 2) with Some (ODict d) => Some d | _ => None end in
+    match transform_run dbg toks (nth_arg args 1) with
+    | Some t => show_res show_content (t o (unhex (nth_arg args 3)))
+    | None => B "badcase"
+    end
+  else if bytes_eqb kind (B "s") then
+    let toks := skipn 2 args in
+    match read_obj_tok (nth_arg args 1) with
+    | Some (OStream d c) => show_stream_res (decode_stream (transform_run dbg toks) d c)
+    | _ => B "badcase"
+    end
+  else B "badcase".
